@@ -90,6 +90,9 @@ fn statements() {
         lit("x", "https://www.w3.org/2001/XMLSchema#string"), lit("x", "http://www.w3.org/2001/XMLSchema#strin"), lit("x", "http://www.w3.org/2001/XMLSchema#String"),
         lit("x", "urn:x://www.w3.org/2001/XMLSchema#string"), lit("x", "http://example.org/ns#string"),
         lang("x", "en"), lang("", "en"), lang("x", "EN-us"), lit("a\"b\\c\nd", &format!("{}string", xs)), lit("é😀", "x:d"),
+        // surrounding / inner white space is part of the lexical form, whatever the datatype
+        lit(" 7", &format!("{}integer", xs)), lit("7 ", &format!("{}integer", xs)), lit("\t7\n", &format!("{}integer", xs)), lit(" ", "x:d"), lit("\u{a0}7\u{2028}", "x:d"),
+        lit(" x ", &format!("{}string", xs)), lang(" x ", "en"),
     ];
     let q1 = SimpleTerm::Triple(Box::new([bn("b1"), iri("x:p"), lit("x", "https://www.w3.org/2001/XMLSchema#string")]));
     let q2 = SimpleTerm::Triple(Box::new([q1.clone(), iri("x:p"), lang("x", "en")]));
